@@ -20,7 +20,11 @@ ASSUMPTIONS = [
 TECHNIQUE = "metamorphic prefix relation over generated series and parameters, all indicators collected per series, bucketed by (indicator, field)"
 MIN_NONTRIVIAL = {'quick': 1500, 'thorough': 30000}
 
-KINDS = ['walk', 'trend', 'downtrend', 'spikes', 'alternating', 'flatish', 'walk', 'spikes', 'constant', 'monotone', 'lattice', 'leading-zero-volume', 'lattice']
+KINDS = ['walk', 'trend', 'downtrend', 'spikes', 'alternating', 'flatish', 'walk', 'spikes', 'constant', 'monotone', 'lattice', 'leading-zero-volume', 'lattice', 'gappy']
+
+
+def _num_like(x):
+    return isinstance(x, (int, float)) and not isinstance(x, bool)
 
 
 def _same(x, y, scale):
@@ -34,6 +38,24 @@ def _same(x, y, scale):
 def compare_prefix(name, full, pre, k, scale, order_exempt=0):
     """Returns list of (field, message, n_bad)."""
     bad = []
+    # categorical fields (strings / booleans derived from comparing numbers) are only compared where every numeric field of the
+    # indicator is bit-identical between the two calls: a tie decided by rounding noise may fall either way
+    ident = None
+    for fld, fv in full.items():
+        a, p = np.asarray(fv), np.asarray(pre.get(fld))
+        if a.ndim == 0 or p.ndim == 0:
+            continue
+        m = min(len(p), len(a))
+        try:
+            if a.dtype.kind in 'fiu' and p.dtype.kind in 'fiu':
+                same = (a[:m].astype(float) == p[:m].astype(float)) | (np.isnan(a[:m].astype(float)) & np.isnan(p[:m].astype(float)))
+            elif a.dtype.kind == 'O':
+                same = np.array([(not isinstance(x, float)) or x == y or (x != x and y != y) for x, y in zip(a[:m].tolist(), p[:m].tolist())], dtype=bool)
+            else:
+                continue
+        except Exception:  # noqa
+            continue
+        ident = same if ident is None or len(ident) != len(same) else (ident & same)
     for fld, fv in full.items():
         a, p = np.asarray(fv), np.asarray(pre.get(fld))
         if a.ndim == 0 or p.ndim == 0:
@@ -48,6 +70,9 @@ def compare_prefix(name, full, pre, k, scale, order_exempt=0):
             ok = np.isclose(af, pf, rtol=1e-9, atol=1e-9 * scale, equal_nan=True) | (~np.isfinite(af) & ~np.isfinite(pf))
         else:
             ok = np.array([_same(x, y, scale) for x, y in zip(a2.tolist(), p2.tolist())], dtype=bool)
+            if ident is not None and len(ident) >= len(ok):
+                cat = np.array([not _num_like(x) for x in a2.tolist()], dtype=bool)
+                ok = ok | (cat & ~ident[:len(ok)])
         if not ok.all():
             i = int(np.argmin(ok))
             bad.append((fld, f'{name}.{fld}: index {i} of the series is {p2[i]!r} on the first {k} candles but {a2[i]!r} on all {len(a)} candles '
